@@ -284,7 +284,7 @@ def run(ctx):
     drv = ctx.driver("drv_c01")
     if not drv:
         return
-    ncases, nstmts, maxdepth, per_tu = (24, 8, 3, 24) if ctx.quick else (50, 10, 4, 30)
+    ncases, nstmts, maxdepth, per_tu = (30, 8, 3, 24) if ctx.quick else (100, 10, 4, 30)
     if os.environ.get("C01_ONLY_CORPUS"):      # development aid: corpus cases only
         ncases = 0
     calc = load_calc()
